@@ -281,4 +281,491 @@ theorem castToBool_false_iff (b : Bytes) :
         · intro h; cases h
         · rintro (h | ⟨_, h⟩) <;> omega
 
+theorem scriptNum_eq_zero_iff (b : Bytes) :
+    Consensus.scriptNum b = 0 ↔
+      (leToNat b = 0 ∨ (b ≠ [] ∧ leToNat b = 128 * 256 ^ (b.length - 1))) := by
+  unfold Consensus.scriptNum
+  by_cases hb : b = []
+  · subst hb; simp [leToNat]
+  · simp only [hb, if_false, ne_eq, not_false_eq_true, true_and]
+    have hpos : 0 < 256 ^ (b.length - 1) := Nat.pow_pos (by omega)
+    generalize 256 ^ (b.length - 1) = P at *
+    generalize leToNat b = v at *
+    split <;> omega
+
+/-- `CastToBool` is the truth test the implementation uses (`decode_num(x) != 0`), for byte
+    strings of every length -/
+theorem castToBool_iff (b : Bytes) : Consensus.castToBool b = true ↔ decodeNum b ≠ 0 := by
+  rw [decodeNum_eq_scriptNum, Ne, scriptNum_eq_zero_iff, ← castToBool_false_iff]
+  cases Consensus.castToBool b <;> simp
+
+theorem castToBool_eq (b : Bytes) : Consensus.castToBool b = !(decodeNum b == 0) := by
+  have := castToBool_iff b
+  cases h : Consensus.castToBool b
+  · simp only [h, Bool.false_eq_true, false_iff, ne_eq, Decidable.not_not] at this
+    simp [this]
+  · simp only [h, true_iff] at this
+    simp [this]
+
+theorem boolNum_eq (b : Bool) : boolNum b = Consensus.vchBool b := by cases b <;> rfl
+
+theorem decodeNum_boolNum (b : Bool) : decodeNum (boolNum b) = if b then 1 else 0 := by
+  cases b <;> rfl
+/-! ## per-function conformance with `Consensus.execOp` -/
+
+/-- the consensus context seen by an environment -/
+def ctxOf (env : Env) : Consensus.Ctx :=
+  { locktime := env.locktime, sequence := env.sequence, version := env.version,
+    sha1 := env.sha1, ripemd160 := env.ripemd160, sha256 := env.sha256,
+    hash160 := env.hash160, hash256 := env.hash256 }
+
+/-- model result of a stack function as a consensus result (returned False and raised are both
+    failures) -/
+def liftS (r : Res Stack) (alt : Stack) : Consensus.Res (Stack × Stack) :=
+  match r with
+  | .ok s => .ok (s, alt)
+  | .fail => .fail
+  | .err _ => .fail
+
+def liftSA (r : Res (Stack × Stack)) : Consensus.Res (Stack × Stack) :=
+  match r with
+  | .ok p => .ok p
+  | .fail => .fail
+  | .err _ => .fail
+
+section
+variable (ctx : Consensus.Ctx) (s alt : Stack)
+
+theorem conf_num_0 : liftS (op_num 0 s) alt = Consensus.execOp ctx 0 s alt := rfl
+theorem conf_num_neg1 : liftS (op_num (-1) s) alt = Consensus.execOp ctx 79 s alt := by
+  show _ = Consensus.Res.ok (Consensus.serialize (-1) :: s, alt)
+  rw [← encodeNum_eq_serialize]; rfl
+
+/-- op_1 … op_16 -/
+theorem conf_num_pos (c : Nat) (h1 : 81 ≤ c) (h2 : c ≤ 96) :
+    liftS (op_num ((c : Int) - 80) s) alt = Consensus.execOp ctx c s alt := by
+  have : Consensus.execOp ctx c s alt = .ok (Consensus.serialize ((c : Int) - 80) :: s, alt) := by
+    have : c = 81 ∨ c = 82 ∨ c = 83 ∨ c = 84 ∨ c = 85 ∨ c = 86 ∨ c = 87 ∨ c = 88 ∨ c = 89 ∨ c = 90 ∨
+      c = 91 ∨ c = 92 ∨ c = 93 ∨ c = 94 ∨ c = 95 ∨ c = 96 := by omega
+    rcases this with h | h | h | h | h | h | h | h | h | h | h | h | h | h | h | h <;> subst h <;> rfl
+  rw [this, ← encodeNum_eq_serialize]; rfl
+
+theorem conf_nop (c : Nat) (h : c = 97 ∨ c = 176 ∨ c = 179 ∨ c = 180 ∨ c = 181 ∨ c = 182 ∨ c = 183 ∨
+    c = 184 ∨ c = 185) : liftS (op_nop s) alt = Consensus.execOp ctx c s alt := by
+  rcases h with h | h | h | h | h | h | h | h | h <;> subst h <;> rfl
+
+theorem conf_verify : liftS (op_verify s) alt = Consensus.execOp ctx 105 s alt := by
+  rcases s with _ | ⟨x, s⟩
+  · rfl
+  · show liftS (if decodeNum x = 0 then .fail else .ok s) alt
+      = (if Consensus.castToBool x then Consensus.Res.ok s else .fail).map (·, alt)
+    rw [castToBool_eq]
+    by_cases h : decodeNum x = 0 <;> simp [h, liftS, Consensus.Res.map]
+
+theorem conf_return : liftS (op_return s) alt = Consensus.execOp ctx 106 s alt := rfl
+
+theorem conf_toaltstack : liftSA (op_toaltstack s alt) = Consensus.execOp ctx 107 s alt := by
+  rcases s with _ | ⟨x, s⟩ <;> rfl
+
+theorem conf_fromaltstack : liftSA (op_fromaltstack s alt) = Consensus.execOp ctx 108 s alt := by
+  rcases alt with _ | ⟨x, a⟩ <;> rfl
+
+theorem conf_2drop : liftS (op_2drop s) alt = Consensus.execOp ctx 109 s alt := by
+  rcases s with _ | ⟨b, _ | ⟨a, s⟩⟩ <;> rfl
+
+theorem conf_2dup : liftS (op_2dup s) alt = Consensus.execOp ctx 110 s alt := by
+  rcases s with _ | ⟨b, _ | ⟨a, s⟩⟩ <;> rfl
+
+theorem conf_3dup : liftS (op_3dup s) alt = Consensus.execOp ctx 111 s alt := by
+  rcases s with _ | ⟨c, _ | ⟨b, _ | ⟨a, s⟩⟩⟩ <;> rfl
+
+theorem conf_2over : liftS (op_2over s) alt = Consensus.execOp ctx 112 s alt := by
+  rcases s with _ | ⟨d, _ | ⟨c, _ | ⟨b, _ | ⟨a, s⟩⟩⟩⟩ <;> rfl
+
+/-- OP_2ROT conforms on every stack with fewer than six items (both fail); with six or more it
+    does not (F07b) -/
+theorem conf_2rot_short (h : s.length < 6) : liftS (op_2rot s) alt = Consensus.execOp ctx 113 s alt := by
+  rcases s with _ | ⟨f, _ | ⟨e, _ | ⟨d, _ | ⟨c, _ | ⟨b, _ | ⟨a, s⟩⟩⟩⟩⟩⟩ <;> first | rfl | (simp at h; omega)
+
+theorem conf_2swap : liftS (op_2swap s) alt = Consensus.execOp ctx 114 s alt := by
+  rcases s with _ | ⟨d, _ | ⟨c, _ | ⟨b, _ | ⟨a, s⟩⟩⟩⟩ <;> rfl
+
+theorem conf_ifdup : liftS (op_ifdup s) alt = Consensus.execOp ctx 115 s alt := by
+  rcases s with _ | ⟨x, s⟩
+  · rfl
+  · show liftS (if decodeNum x ≠ 0 then .ok (x :: x :: s) else .ok (x :: s)) alt
+      = (if Consensus.castToBool x then Consensus.Res.ok (x :: x :: s, alt) else .ok (x :: s, alt))
+    rw [castToBool_eq]
+    by_cases h : decodeNum x = 0 <;> simp [h, liftS]
+
+theorem conf_depth : liftS (op_depth s) alt = Consensus.execOp ctx 116 s alt := by
+  show _ = Consensus.Res.ok (Consensus.serialize (s.length : Int) :: s, alt)
+  rw [← encodeNum_eq_serialize]; rfl
+
+theorem conf_drop : liftS (op_drop s) alt = Consensus.execOp ctx 117 s alt := by
+  rcases s with _ | ⟨x, s⟩ <;> rfl
+
+theorem conf_dup : liftS (op_dup s) alt = Consensus.execOp ctx 118 s alt := by
+  rcases s with _ | ⟨x, s⟩ <;> rfl
+
+theorem conf_nip : liftS (op_nip s) alt = Consensus.execOp ctx 119 s alt := by
+  rcases s with _ | ⟨b, _ | ⟨a, s⟩⟩ <;> rfl
+
+theorem conf_over : liftS (op_over s) alt = Consensus.execOp ctx 120 s alt := by
+  rcases s with _ | ⟨b, _ | ⟨a, s⟩⟩ <;> rfl
+
+theorem conf_rot : liftS (op_rot s) alt = Consensus.execOp ctx 123 s alt := by
+  rcases s with _ | ⟨c, _ | ⟨b, _ | ⟨a, s⟩⟩⟩ <;> rfl
+
+theorem conf_swap : liftS (op_swap s) alt = Consensus.execOp ctx 124 s alt := by
+  rcases s with _ | ⟨b, _ | ⟨a, s⟩⟩ <;> rfl
+
+theorem conf_tuck : liftS (op_tuck s) alt = Consensus.execOp ctx 125 s alt := by
+  rcases s with _ | ⟨b, _ | ⟨a, s⟩⟩ <;> rfl
+
+theorem conf_size : liftS (op_size s) alt = Consensus.execOp ctx 130 s alt := by
+  rcases s with _ | ⟨x, s⟩
+  · rfl
+  · show _ = Consensus.Res.ok (Consensus.serialize (x.length : Int) :: x :: s, alt)
+    rw [← encodeNum_eq_serialize]; rfl
+
+theorem bytes_beq_comm (a b : Bytes) : (a == b) = (b == a) := by
+  by_cases h : a = b
+  · subst h; rfl
+  · have h' : ¬ b = a := fun e => h e.symm
+    rw [beq_eq_false_iff_ne.mpr h, beq_eq_false_iff_ne.mpr h']
+
+theorem conf_equal : liftS (op_equal s) alt = Consensus.execOp ctx 135 s alt := by
+  rcases s with _ | ⟨e1, _ | ⟨e2, s⟩⟩
+  · rfl
+  · rfl
+  · show Consensus.Res.ok (boolNum (e1 == e2) :: s, alt) = .ok (Consensus.vchBool (e2 == e1) :: s, alt)
+    rw [boolNum_eq, bytes_beq_comm]
+
+theorem conf_equalverify : liftS (op_equalverify s) alt = Consensus.execOp ctx 136 s alt := by
+  rcases s with _ | ⟨e1, _ | ⟨e2, s⟩⟩
+  · rfl
+  · rfl
+  · show liftS (if decodeNum (boolNum (e1 == e2)) = 0 then .fail else .ok s) alt
+      = (if (e2 == e1) then Consensus.Res.ok (s, alt) else .fail)
+    rw [decodeNum_boolNum, bytes_beq_comm]
+    cases (e2 == e1) <;> rfl
+
+end
+theorem num4_some {b : Bytes} {n : Int} (h : Consensus.num4 b = some n) : decodeNum b = n := by
+  unfold Consensus.num4 Consensus.numMax at h
+  split at h
+  · rw [decodeNum_eq_scriptNum]; exact Option.some.inj h
+  · cases h
+
+theorem num5_some {b : Bytes} {n : Int} (h : Consensus.num5 b = some n) : decodeNum b = n := by
+  unfold Consensus.num5 Consensus.numMax at h
+  split at h
+  · rw [decodeNum_eq_scriptNum]; exact Option.some.inj h
+  · cases h
+
+/-- shape shared by the unary numeric functions -/
+def unaryB (f : Int → Bytes) : Stack → Res Stack
+  | x :: r => .ok (f (decodeNum x) :: r)
+  | [] => .fail
+
+theorem un4_conf (s alt : Stack) (f g : Int → Bytes) (hfg : ∀ a, f a = g a)
+    (h : Consensus.un4 g s ≠ .oversize) :
+    liftS (unaryB f s) alt = (Consensus.un4 g s).map (·, alt) := by
+  rcases s with _ | ⟨x, r⟩
+  · rfl
+  · unfold Consensus.un4 at h ⊢
+    cases hn : Consensus.num4 x with
+    | none => simp [hn] at h
+    | some n => simp only [unaryB, liftS, Consensus.Res.map, num4_some hn, hfg, hn]
+
+theorem map_ne_oversize {α β} {r : Consensus.Res α} {f : α → β}
+    (h : r.map f ≠ .oversize) : r ≠ .oversize := by
+  intro e; apply h; rw [e]; rfl
+
+/-- shape shared by the binary numeric functions: the model reads (top, second), consensus
+    names them (bn2, bn1) -/
+theorem bin4_conf (s alt : Stack) (f g : Int → Int → Bytes) (hfg : ∀ a b, f a b = g b a)
+    (h : Consensus.bin4 g s ≠ .oversize) :
+    liftS (binaryNum f s) alt = (Consensus.bin4 g s).map (·, alt) := by
+  rcases s with _ | ⟨x2, _ | ⟨x1, r⟩⟩
+  · rfl
+  · rfl
+  · unfold Consensus.bin4 at h ⊢
+    cases h1 : Consensus.num4 x1 with
+    | none => simp [h1] at h
+    | some n1 =>
+      cases h2 : Consensus.num4 x2 with
+      | none => simp [h1, h2] at h
+      | some n2 => simp only [binaryNum, liftS, Consensus.Res.map, num4_some h1, num4_some h2, hfg, h1, h2]
+
+section
+variable (ctx : Consensus.Ctx) (s alt : Stack)
+
+theorem unaryNum_eq (f : Int → Int) : unaryNum f = unaryB (fun e => encodeNum (f e)) := by
+  funext s; cases s <;> rfl
+theorem op_not_eq : op_not = unaryB (fun e => boolNum (e == 0)) := by funext s; cases s <;> rfl
+theorem op_0notequal_eq : op_0notequal = unaryB (fun e => boolNum (!(e == 0))) := by funext s; cases s <;> rfl
+
+theorem conf_1add (h : Consensus.execOp ctx 139 s alt ≠ .oversize) :
+    liftS (op_1add s) alt = Consensus.execOp ctx 139 s alt := by
+  rw [op_1add, unaryNum_eq]
+  exact un4_conf s alt _ _ (fun a => encodeNum_eq_serialize _) (map_ne_oversize h)
+
+theorem conf_1sub (h : Consensus.execOp ctx 140 s alt ≠ .oversize) :
+    liftS (op_1sub s) alt = Consensus.execOp ctx 140 s alt := by
+  rw [op_1sub, unaryNum_eq]
+  exact un4_conf s alt _ _ (fun a => encodeNum_eq_serialize _) (map_ne_oversize h)
+
+theorem conf_negate (h : Consensus.execOp ctx 143 s alt ≠ .oversize) :
+    liftS (op_negate s) alt = Consensus.execOp ctx 143 s alt := by
+  rw [op_negate, unaryNum_eq]
+  exact un4_conf s alt _ _ (fun a => encodeNum_eq_serialize _) (map_ne_oversize h)
+
+theorem conf_abs (h : Consensus.execOp ctx 144 s alt ≠ .oversize) :
+    liftS (op_abs s) alt = Consensus.execOp ctx 144 s alt := by
+  rw [op_abs, unaryNum_eq]
+  exact un4_conf s alt _ _ (fun a => encodeNum_eq_serialize _) (map_ne_oversize h)
+
+theorem conf_not (h : Consensus.execOp ctx 145 s alt ≠ .oversize) :
+    liftS (op_not s) alt = Consensus.execOp ctx 145 s alt := by
+  rw [op_not_eq]
+  exact un4_conf s alt _ _ (fun a => boolNum_eq _) (map_ne_oversize h)
+
+theorem conf_0notequal (h : Consensus.execOp ctx 146 s alt ≠ .oversize) :
+    liftS (op_0notequal s) alt = Consensus.execOp ctx 146 s alt := by
+  rw [op_0notequal_eq]
+  exact un4_conf s alt _ _ (fun a => by rw [boolNum_eq]; rfl) (map_ne_oversize h)
+
+theorem conf_add (h : Consensus.execOp ctx 147 s alt ≠ .oversize) :
+    liftS (op_add s) alt = Consensus.execOp ctx 147 s alt :=
+  bin4_conf s alt _ _ (fun a b => by rw [encodeNum_eq_serialize, Int.add_comm]) (map_ne_oversize h)
+
+theorem conf_sub (h : Consensus.execOp ctx 148 s alt ≠ .oversize) :
+    liftS (op_sub s) alt = Consensus.execOp ctx 148 s alt :=
+  bin4_conf s alt _ _ (fun a b => by rw [encodeNum_eq_serialize]) (map_ne_oversize h)
+
+theorem conf_booland (h : Consensus.execOp ctx 154 s alt ≠ .oversize) :
+    liftS (op_booland s) alt = Consensus.execOp ctx 154 s alt :=
+  bin4_conf s alt _ _ (fun a b => by rw [boolNum_eq, Bool.and_comm]) (map_ne_oversize h)
+
+theorem conf_boolor (h : Consensus.execOp ctx 155 s alt ≠ .oversize) :
+    liftS (op_boolor s) alt = Consensus.execOp ctx 155 s alt :=
+  bin4_conf s alt _ _ (fun a b => by rw [boolNum_eq, Bool.or_comm]) (map_ne_oversize h)
+
+theorem int_beq_comm (a b : Int) : (a == b) = (b == a) := by
+  by_cases h : a = b
+  · subst h; rfl
+  · have h' : ¬ b = a := fun e => h e.symm
+    rw [beq_eq_false_iff_ne.mpr h, beq_eq_false_iff_ne.mpr h']
+
+theorem conf_numequal (h : Consensus.execOp ctx 156 s alt ≠ .oversize) :
+    liftS (op_numequal s) alt = Consensus.execOp ctx 156 s alt :=
+  bin4_conf s alt _ _ (fun a b => by rw [boolNum_eq, int_beq_comm]) (map_ne_oversize h)
+
+theorem conf_numnotequal (h : Consensus.execOp ctx 158 s alt ≠ .oversize) :
+    liftS (op_numnotequal s) alt = Consensus.execOp ctx 158 s alt :=
+  bin4_conf s alt _ _ (fun a b => by rw [boolNum_eq, int_beq_comm]; rfl) (map_ne_oversize h)
+
+theorem conf_lessthan (h : Consensus.execOp ctx 159 s alt ≠ .oversize) :
+    liftS (op_lessthan s) alt = Consensus.execOp ctx 159 s alt :=
+  bin4_conf s alt _ _ (fun a b => by rw [boolNum_eq]) (map_ne_oversize h)
+
+theorem conf_greaterthan (h : Consensus.execOp ctx 160 s alt ≠ .oversize) :
+    liftS (op_greaterthan s) alt = Consensus.execOp ctx 160 s alt :=
+  bin4_conf s alt _ _ (fun a b => by rw [boolNum_eq]) (map_ne_oversize h)
+
+theorem conf_lessthanorequal (h : Consensus.execOp ctx 161 s alt ≠ .oversize) :
+    liftS (op_lessthanorequal s) alt = Consensus.execOp ctx 161 s alt :=
+  bin4_conf s alt _ _ (fun a b => by rw [boolNum_eq]) (map_ne_oversize h)
+
+theorem conf_greaterthanorequal (h : Consensus.execOp ctx 162 s alt ≠ .oversize) :
+    liftS (op_greaterthanorequal s) alt = Consensus.execOp ctx 162 s alt :=
+  bin4_conf s alt _ _ (fun a b => by rw [boolNum_eq]) (map_ne_oversize h)
+
+theorem conf_min (h : Consensus.execOp ctx 163 s alt ≠ .oversize) :
+    liftS (op_min s) alt = Consensus.execOp ctx 163 s alt :=
+  bin4_conf s alt _ _ (fun a b => by
+    simp only [← encodeNum_eq_serialize]
+    by_cases h1 : a < b <;> by_cases h2 : b < a <;> simp [h1, h2] <;> (congr 1; omega)) (map_ne_oversize h)
+
+theorem conf_max (h : Consensus.execOp ctx 164 s alt ≠ .oversize) :
+    liftS (op_max s) alt = Consensus.execOp ctx 164 s alt :=
+  bin4_conf s alt _ _ (fun a b => by
+    simp only [← encodeNum_eq_serialize]
+    by_cases h1 : a > b <;> by_cases h2 : b > a <;> simp [h1, h2] <;> (congr 1; omega)) (map_ne_oversize h)
+
+end
+section
+variable (ctx : Consensus.Ctx) (s alt : Stack)
+
+theorem conf_numequalverify (h : Consensus.execOp ctx 157 s alt ≠ .oversize) :
+    liftS (op_numequalverify s) alt = Consensus.execOp ctx 157 s alt := by
+  rcases s with _ | ⟨x2, _ | ⟨x1, r⟩⟩
+  · rfl
+  · rfl
+  · have h' := map_ne_oversize h
+    show liftS ((op_numequal (x2 :: x1 :: r)).bind op_verify) alt
+      = ((Consensus.bin4 (fun bn1 bn2 => Consensus.vchBool (bn1 == bn2)) (x2 :: x1 :: r)).andThen
+          Consensus.verifyTop).map (·, alt)
+    unfold Consensus.bin4 at h' ⊢
+    cases h1 : Consensus.num4 x1 with
+    | none => simp [h1, Consensus.Res.andThen] at h'
+    | some n1 =>
+      cases h2 : Consensus.num4 x2 with
+      | none => simp [h1, h2, Consensus.Res.andThen] at h'
+      | some n2 =>
+        simp only [op_numequal, binaryNum, Res.bind, num4_some h1, num4_some h2, op_verify,
+          decodeNum_boolNum, Consensus.Res.andThen, Consensus.verifyTop, h1, h2]
+        rw [int_beq_comm]
+        cases (n1 == n2) <;> rfl
+
+theorem conf_within (h : Consensus.execOp ctx 165 s alt ≠ .oversize) :
+    liftS (op_within s) alt = Consensus.execOp ctx 165 s alt := by
+  rcases s with _ | ⟨x3, _ | ⟨x2, _ | ⟨x1, r⟩⟩⟩
+  · rfl
+  · rfl
+  · rfl
+  · have e : Consensus.execOp ctx 165 (x3 :: x2 :: x1 :: r) alt =
+        match Consensus.num4 x1, Consensus.num4 x2, Consensus.num4 x3 with
+        | some bn1, some bn2, some bn3 =>
+          .ok (Consensus.vchBool (decide (bn2 ≤ bn1) && decide (bn1 < bn3)) :: r, alt)
+        | _, _, _ => .oversize := rfl
+    rw [e] at h ⊢
+    cases h1 : Consensus.num4 x1 with
+    | none => simp [h1] at h
+    | some n1 =>
+      cases h2 : Consensus.num4 x2 with
+      | none => simp [h1, h2] at h
+      | some n2 =>
+        cases h3 : Consensus.num4 x3 with
+        | none => simp [h1, h2, h3] at h
+        | some n3 =>
+          simp only [op_within, liftS, num4_some h1, num4_some h2, num4_some h3, boolNum_eq, ge_iff_le]
+
+theorem conf_ripemd160 (env : Env) : liftS (op_ripemd160 env s) alt = Consensus.execOp (ctxOf env) 166 s alt := by
+  rcases s with _ | ⟨x, s⟩ <;> rfl
+theorem conf_sha1 (env : Env) : liftS (op_sha1 env s) alt = Consensus.execOp (ctxOf env) 167 s alt := by
+  rcases s with _ | ⟨x, s⟩ <;> rfl
+theorem conf_sha256 (env : Env) : liftS (op_sha256 env s) alt = Consensus.execOp (ctxOf env) 168 s alt := by
+  rcases s with _ | ⟨x, s⟩ <;> rfl
+theorem conf_hash160 (env : Env) : liftS (op_hash160 env s) alt = Consensus.execOp (ctxOf env) 169 s alt := by
+  rcases s with _ | ⟨x, s⟩ <;> rfl
+theorem conf_hash256 (env : Env) : liftS (op_hash256 env s) alt = Consensus.execOp (ctxOf env) 170 s alt := by
+  rcases s with _ | ⟨x, s⟩ <;> rfl
+
+theorem op_pick_repaired (top : Bytes) (s : Stack) : op_pick Cfg.repaired (top :: s) =
+    if decodeNum top < 0 then .fail else if (s.length : Int) < decodeNum top + 1 then .fail
+    else match s[(decodeNum top).toNat]? with
+      | some x => .ok (x :: s)
+      | none => .err .indexError := by
+  unfold op_pick
+  by_cases hneg : decodeNum top < 0
+  · simp [Cfg.repaired, hneg]
+  · have h0 : 0 ≤ decodeNum top := by omega
+    simp [Cfg.repaired, hneg, h0]
+    rfl
+
+theorem op_roll_repaired (top : Bytes) (s : Stack) : op_roll Cfg.repaired (top :: s) =
+    if decodeNum top < 0 then .fail else if (s.length : Int) < decodeNum top + 1 then .fail
+    else if decodeNum top = 0 then .ok s
+    else match s[(decodeNum top).toNat]? with
+      | some x => .ok (x :: s.eraseIdx (decodeNum top).toNat)
+      | none => .err .indexError := by
+  unfold op_roll
+  by_cases hneg : decodeNum top < 0
+  · simp [Cfg.repaired, hneg]
+  · have h0 : 0 ≤ decodeNum top := by omega
+    simp [Cfg.repaired, hneg, h0]
+    rfl
+
+/-- OP_PICK, repaired (F07c) -/
+theorem conf_pick (h : Consensus.execOp ctx 121 s alt ≠ .oversize) :
+    liftS (op_pick Cfg.repaired s) alt = Consensus.execOp ctx 121 s alt := by
+  rcases s with _ | ⟨top, s⟩
+  · rfl
+  · rw [op_pick_repaired]
+    rcases s with _ | ⟨x, s'⟩
+    · -- one item: consensus fails on the size test, the model on the index test
+      show _ = Consensus.Res.fail
+      by_cases hneg : decodeNum top < 0
+      · rw [if_pos hneg]; rfl
+      · have : ((([] : Stack).length : Nat) : Int) < decodeNum top + 1 := by simp; omega
+        rw [if_neg hneg, if_pos this]; rfl
+    · have e : Consensus.execOp ctx 121 (top :: x :: s') alt =
+          match Consensus.num4 top with
+          | none => .oversize
+          | some n =>
+            if n < 0 || n ≥ ((x :: s').length : Int) then .fail
+            else match (x :: s')[n.toNat]? with
+              | none => .fail
+              | some vch => if (121 : Nat) = 122 then .ok (vch :: (x :: s').eraseIdx n.toNat, alt) else .ok (vch :: x :: s', alt) := rfl
+      rw [e] at h ⊢
+      generalize x :: s' = l at *
+      cases hn4 : Consensus.num4 top with
+      | none => simp [hn4] at h
+      | some n =>
+        rw [num4_some hn4]
+        show _ = if (decide (n < 0) || decide (n ≥ (l.length : Int))) = true then _ else _
+        by_cases hneg : n < 0
+        · have hc : (decide (n < 0) || decide (n ≥ (l.length : Int))) = true := by simp [hneg]
+          rw [if_pos hneg, if_pos hc]; rfl
+        · by_cases hlen : (l.length : Int) < n + 1
+          · have hc : (decide (n < 0) || decide (n ≥ (l.length : Int))) = true := by
+              have : n ≥ (l.length : Int) := by omega
+              simp [this]
+            rw [if_neg hneg, if_pos hlen, if_pos hc]; rfl
+          · have hc : ¬ (decide (n < 0) || decide (n ≥ (l.length : Int))) = true := by
+              have : ¬ n ≥ (l.length : Int) := by omega
+              simp [hneg, this]
+            rw [if_neg hneg, if_neg hlen, if_neg hc]
+            cases l[n.toNat]? <;> rfl
+
+/-- OP_ROLL, repaired (F07c) -/
+theorem conf_roll (h : Consensus.execOp ctx 122 s alt ≠ .oversize) :
+    liftS (op_roll Cfg.repaired s) alt = Consensus.execOp ctx 122 s alt := by
+  rcases s with _ | ⟨top, s⟩
+  · rfl
+  · rw [op_roll_repaired]
+    rcases s with _ | ⟨x, s'⟩
+    · show _ = Consensus.Res.fail
+      by_cases hneg : decodeNum top < 0
+      · rw [if_pos hneg]; rfl
+      · have : ((([] : Stack).length : Nat) : Int) < decodeNum top + 1 := by simp; omega
+        rw [if_neg hneg, if_pos this]; rfl
+    · have e : Consensus.execOp ctx 122 (top :: x :: s') alt =
+          match Consensus.num4 top with
+          | none => .oversize
+          | some n =>
+            if n < 0 || n ≥ ((x :: s').length : Int) then .fail
+            else match (x :: s')[n.toNat]? with
+              | none => .fail
+              | some vch => if (122 : Nat) = 122 then .ok (vch :: (x :: s').eraseIdx n.toNat, alt) else .ok (vch :: x :: s', alt) := rfl
+      rw [e] at h ⊢
+      cases hn4 : Consensus.num4 top with
+      | none => simp [hn4] at h
+      | some n =>
+        rw [num4_some hn4]
+        by_cases hz : n = 0
+        · subst hz
+          simp [liftS]
+          rw [if_neg (show ¬ ((s'.length : Int) + 1 < 1) by omega),
+            if_neg (show ¬ ((s'.length : Int) + 1 ≤ 0) by omega)]
+        · generalize x :: s' = l at *
+          show _ = if (decide (n < 0) || decide (n ≥ (l.length : Int))) = true then _ else _
+          by_cases hneg : n < 0
+          · have hc : (decide (n < 0) || decide (n ≥ (l.length : Int))) = true := by simp [hneg]
+            rw [if_pos hneg, if_pos hc]; rfl
+          · by_cases hlen : (l.length : Int) < n + 1
+            · have hc : (decide (n < 0) || decide (n ≥ (l.length : Int))) = true := by
+                have : n ≥ (l.length : Int) := by omega
+                simp [this]
+              rw [if_neg hneg, if_pos hlen, if_pos hc]; rfl
+            · have hc : ¬ (decide (n < 0) || decide (n ≥ (l.length : Int))) = true := by
+                have : ¬ n ≥ (l.length : Int) := by omega
+                simp [hneg, this]
+              rw [if_neg hneg, if_neg hlen, if_neg hc, if_neg hz]
+              cases l[n.toNat]? <;> rfl
+
+end
 end Buidl.Interp
